@@ -134,18 +134,10 @@ Section WithCase.
     somes (map (fun k => option_map (fun tb => table_out rk_r rk_c (centre k) geomean_stub tb) (find_tab k ts))
                (sort_by rk_t (map bt_key ts))).
 
-  (** the specification, straight from the measurement list *)
-  Definition spec_tab (t : N) : btab :=
-    let ms := filter (fun m => (m_t m =? t)%N) (k_meas c) in
-    let rows := dedup (map m_r ms) in
-    let cols := dedup (map m_c ms) in
-    mkBtab t (flat_map (fun r => flat_map (fun cl =>
-      match filter (m_is t r cl) (k_meas c) with
-      | [] => []
-      | l => [mkBcell r cl (map m_v l) (dedup (map m_res l))]
-      end) cols) rows).
+  (** the specification, straight from the measurement list (Model.BenchTab.spec_tab;
+      Properties/C14.v: C14_build_meets_spec shows the model always equals it) *)
   Definition expected_spec : list otab :=
-    map (fun t => table_out rk_r rk_c (centre t) geomean_stub (spec_tab t))
+    map (fun t => table_out rk_r rk_c (centre t) geomean_stub (spec_tab (k_meas c) t))
         (sort_by rk_t (dedup (map m_t (k_meas c)))).
 
   (** comparing an expected table with the observation *)
